@@ -9,5 +9,7 @@ CONSTANTS
   MaxPolls = 8
   Vod = TRUE
   Fmp4 = TRUE
+  LL = FALSE
+  CanSkip = FALSE
 INVARIANTS EmitHist
 CHECK_DEADLOCK FALSE
